@@ -4,5 +4,5 @@ Require Import ExtrOcamlBasic.
 From EV Require AutoRemoveModel.
 Extraction Language OCaml.
 Set Extraction Optimize.
-Definition autoremove_run_case := AutoRemoveModel.a_run_case.
+Definition autoremove_run_case := AutoRemoveModel.a_case.
 Extraction "../ocaml/gen/autoremove_model.ml" autoremove_run_case.
